@@ -24,14 +24,15 @@ func hFindVehicle(vs []Vehicle, id *VehicleID) int {
 
 // A trip and a vehicle associated by a trip update carrying a vehicle
 // descriptor (HOW=0), by a vehicle position carrying a trip descriptor
-// (HOW=1), or by both (HOW=2, either entity order); the vehicle has an id, a
+// (HOW=1), by both (HOW=2, either entity order), or by one of them while the
+// other party also has an entity of its own that does not mention it (HOW=3, 4); the vehicle has an id, a
 // label only, a licence plate only, all three, or (HOW=1 only) no descriptor.
 func Harness_C04_links() {
 	how := vr.Param("HOW", 0)
 	_, zone := hZone()
 	maxKind := 4
 	minKind := 1
-	if how == 1 {
+	if how == 1 || how == 4 {
 		minKind = 0
 	}
 	vkind := vr.Int("vehicle.kind", minKind, maxKind)
@@ -52,6 +53,20 @@ func Harness_C04_links() {
 	switch how {
 	case 0:
 		ents = []*gtfsrt.FeedEntity{tu}
+	case 3: // the association comes from the trip update only; the vehicle also has a position entity without trip
+		vp.Vehicle.Trip = nil
+		if vr.Bool("vp_first") {
+			ents = []*gtfsrt.FeedEntity{vp, tu}
+		} else {
+			ents = []*gtfsrt.FeedEntity{tu, vp}
+		}
+	case 4: // the association comes from the vehicle position only; the trip also has an update without vehicle
+		tu.TripUpdate.Vehicle = nil
+		if vr.Bool("vp_first") {
+			ents = []*gtfsrt.FeedEntity{vp, tu}
+		} else {
+			ents = []*gtfsrt.FeedEntity{tu, vp}
+		}
 	case 1:
 		ents = []*gtfsrt.FeedEntity{vp}
 	default:
